@@ -142,7 +142,50 @@ def cat(tier):
 
 
 def units(tier):
-    return list(range(len(cat(tier))))
+    return list(range(len(cat(tier)))) + [('alias', i) for i in range(len(ALIAS_TYPES))]
+
+
+# the corrupted node is an ALIAS of a node that is fine where it is anchored (an untyped attribute): the corruption is at
+# the alias, two lines below the anchor and below the start of the enclosing mapping
+ALIAS_TYPES = ['int', 'str', 'bool', 'float', ('cls', 'En'), ('cls', 'In'), ('list', 'int'), ('dict', 'str', 'int'), 'date']
+ALIAS_VALUES = [S('int', '1'), S('str', 'x'), S('bool', 'true'), S('float', '1.5'), S('str', 'north'), S('null', '~'),
+                M([(S('str', 'p'), S('int', '1'))]), M([(S('str', 'k'), S('str', 'v'))]), Q([S('int', '1')]), Q([S('str', 'a')]),
+                S('timestamp', '2001-01-01')]
+
+
+def alias_unit(res, i):
+    t = ALIAS_TYPES[i]
+    en = {'name': 'En', 'kind': 'enum', 'members': ['north', 'south']}
+    spec = {'classes': catalog.BASE + [en, {'name': 'K', 'params': [('z', 'int'), ('a', 'any'), ('b', t)]}], 'root': ('cls', 'K')}
+    case = loadcase.Case(spec)
+    for v in ALIAS_VALUES:
+        res.states += 1
+        root = models.to_node(M([(S('str', 'z'), S('int', '0')), (S('str', 'a'), v), (S('str', 'b'), v)]))
+        root.value[2] = (root.value[2][0], root.value[1][1])        # b's value IS a's value: anchor and alias
+        text = case.R.serialize(root)
+        plain = case.R.render(M([(S('str', 'z'), S('int', '0')), (S('str', 'a'), v), (S('str', 'b'), v)]))
+        o, op = case.impl(text), case.impl(plain)
+        res.transitions += 1
+        res.traces += 2
+        if o[0] != 'rej' or op[0] != 'rej':
+            res.hist['alias:' + o[0]] += 1
+            continue
+        res.nontrivial += 1
+        comp = case.R.compose(plain)
+        b_key, b_val = comp.value[2]
+        lines = {b_key.start_mark.line + 1, b_val.start_mark.line + 1, comp.start_mark.line + 1}
+        # inside a wrong collection the offending node may be further down: any line of b's value counts
+        lines |= set(range(b_val.start_mark.line + 1, b_val.end_mark.line + 2))
+        # the alias form has the same lines for z, a and b (the anchor only adds '&id001' to a's line)
+        got = {ln for ln, _ in cited(o[1])}
+        gotp = {ln for ln, _ in cited(op[1])}
+        if gotp & lines and not (got & lines):
+            res.violation('C17:strong:alias-cites-anchor',
+                          'document %r (b is an alias of a, and wrong for %s): the message cites line(s) %s - the anchor - and none of %s; '
+                          'written out (%r) it cites %s' % (text, t, sorted(got), sorted(lines), plain, sorted(gotp)),
+                          loadcase.payload(spec, text, claim='alias', plain=plain))
+        else:
+            res.hist['alias:line-ok'] += 1
 
 
 # ---------------------------------------------------------------- positions
@@ -309,6 +352,9 @@ def strong_case(res, case, spec, fam, tree0, op, site, tree1, class_paths):
 
 def run_unit(unit, tier):
     res = core.Result()
+    if isinstance(unit, tuple):
+        alias_unit(res, unit[1])
+        return res
     claim, fam, spec = cat(tier)[unit]
     case = loadcase.Case(spec)
     res.states += 1
@@ -388,6 +434,15 @@ def replay(payload):
     res = core.Result()
     if not check_weak(res, spec, text, o[1], 'replay'):
         return True, res.violations[0]['what']
+    if payload.get('claim') == 'alias':
+        op = case.impl(payload['plain'])
+        comp = case.R.compose(payload['plain'])
+        b_key, b_val = comp.value[2]
+        lines = {b_key.start_mark.line + 1, comp.start_mark.line + 1} | set(range(b_val.start_mark.line + 1, b_val.end_mark.line + 2))
+        got = {ln for ln, _ in cited(o[1])}
+        if op[0] == 'rej' and {ln for ln, _ in cited(op[1])} & lines and not (got & lines):
+            return True, 'cited lines %s (the anchor), expected one of %s: %s' % (sorted(got), sorted(lines), o[1].replace('\n', ' / ')[:300])
+        return False, 'the message points at the alias'
     if payload.get('claim') == 'strong':
         tree1 = models.view(case.R.compose(text))
         tree0 = models.view(case.R.compose(payload['original']))
